@@ -162,7 +162,7 @@ def c01_catalogue(quick):
     # one page with more links than the table batch size (1000)
     if not quick:
         many = [U(1, links=list(range(2, 1103)))] + [U(i) for i in range(2, 1103)]
-        out.append(scenario('many-links', many, dict(level=1), N=2))
+        out.append(scenario('many-links', many, dict(level=1), N=1))
         wide = [U(1, links=[2, 3, 4, 5]), U(2, links=[6]), U(3, links=[6]), U(4, links=[6, 7]), U(5, links=[7]),
                 U(6, links=[1]), U(7, links=[2])]
         for n in (1, 2, 3, 4):
